@@ -88,7 +88,8 @@ def wait_interruptible(R, prog):
     seen = an.SeenTracker([('resume', lambda ev: ev.kind == 'call' and ev.callee() == 'photon::semaphore::try_resume'),
                            ('sleep', lambda ev: ev.kind == 'call' and (ev.callee() or '').split('::')[-1] in ('wait_defer', 'wait', 'thread_usleep_defer', 'thread_usleep'), ('resume',))])
     res = an.run(G, [lt, an.GuardTracker(lambda k: True), seen])
-    ret_names = K.local_names_init_by(f, lambda e, i: e['k'] == 'call' and strip_targs(e.get('fn') or '').split('::')[-1] in ('wait_defer', 'wait', 'thread_usleep_defer'))
+    ret_names = K.local_names_init_by(f, lambda e, i: e['k'] == 'call' and strip_targs(e.get('fn') or '').split('::')[-1] in ('wait_defer', 'wait', 'thread_usleep_defer')) | \
+        K.locals_assigned_from_call(f, r'::(wait_defer|wait|thread_usleep_defer)$')
     R.require(ret_names, 'C02: wait_interruptible no longer sleeps through waitq::wait_defer')
     cnt = f.decls[f.j['params'][0]]['name']
     # every sleep is a hand-off of the held splock
@@ -185,7 +186,28 @@ def wake_discipline(R, prog):
                describe=lambda ev: 'prelocked_thread_interrupt() dequeues the waiter under the wait-queue spinlock: calling it with that lock held spins forever', min_sites=2, what='prelocked_thread_interrupt')
 
 
+def wait_defer_is_atomic(R, prog):
+    """K8/K11: waitq::wait_defer() - the only sleep of the semaphore - hands the caller's unlock callback to the deferred switch
+    together with its own queue; it never runs the callback itself (that would release the lock before the waiter is queued)."""
+    f = prog.find('photon::waitq::wait_defer', sig='void (*)(void *)')
+    G = K.build_f(R, prog, f)
+    pn = [f.decls[d]['name'] for d in f.j['params']]
+    R.require(len(pn) >= 3, 'C02: waitq::wait_defer(timeout, defer, arg) changed its signature')
+    defer, darg = pn[1], pn[2]
+    direct = [ev for _, _, ev in G.events() if ev.kind == 'call' and not ev.e.get('fn') and 'calleeExpr' in ev.e and (ev.f.x(ev.f.skip(ev.e['calleeExpr'])) or {}).get('name') == defer]
+    key = P + '.K8:photon::waitq::wait_defer:callback-only-through-the-deferred-switch'
+    if direct:
+        R.violated(P + '.K8', key, f.id, direct[0].loc(), 'the unlock callback is invoked directly (%s): the lock is released before the waiter is in the queue' % direct[0].show()[:60])
+    sleeps = [ev for _, _, ev in G.events() if ev.kind == 'call' and (ev.callee() or '').split('::')[-1] in ('thread_usleep_defer', 'thread_usleep', 'wait')]
+    ok = [ev for ev in sleeps if (ev.callee() or '').endswith('thread_usleep_defer') and defer in [ev.arg_path(i) for i in range(len(ev.e['args']))] and
+          darg in [ev.arg_path(i) for i in range(len(ev.e['args']))] and any('q' in (ev.arg_show(i) or '') for i in range(len(ev.e['args'])))]
+    if not direct:
+        (R.held if ok and len(ok) == len(sleeps) else R.violated)(P + '.K8', key, f.id, (sleeps[0].loc() if sleeps else '%s:%d' % (f.file, f.line)),
+                                                                  'sleeps through thread_usleep_defer(timeout, &q, defer, arg): release-and-enqueue is one step')
+
+
 def run(R, prog, tier):
+    R.guard(wait_defer_is_atomic, R, prog)
     R.guard(wake_discipline, R, prog)
     k1(R, prog)
     R.guard(writers, R, prog)
